@@ -1,6 +1,7 @@
 package cache
 
 import (
+	"errors"
 	"bytes"
 	"context"
 	"encoding/hex"
@@ -146,6 +147,7 @@ type c10Sys struct {
 	lateCalls int
 	qSeq      int
 	lastMut   string
+	failDownstream    bool // the current query's chain fails after the upstream has answered
 	rewriteDownstream bool // the current query runs with a response-rewriting plugin behind the cache
 	viols     []c10Viol
 	infra     string
@@ -198,8 +200,13 @@ func (n *c10Next) Exec(_ context.Context, qCtx *query_context.Context) error {
 	s.slotOrig = h
 	s.model[k] = c10ModelEntry{present: true, gen: gen, storedAt: vs.Elapsed()}
 	s.calls = append(s.calls, c10Call{k: k, produced: h, inDrain: s.inDrain})
+	if s.failDownstream && !s.inDrain {
+		return errC10Downstream // a later plugin of the chain (ipset, nftset, ...) fails
+	}
 	return nil
 }
+
+var errC10Downstream = errors.New("c10: a plugin behind the upstream failed")
 
 func c10NewSys() *c10Sys {
 	s := &c10Sys{lastMut: "none"}
@@ -235,7 +242,7 @@ func (s *c10Sys) query(k int, id uint16, probe bool, check bool) (string, *c10Ha
 	qCtx := query_context.NewContext(q)
 	s.calls = s.calls[:0]
 	w := sequence.NewChainWalker(s.chain, nil)
-	if err := s.c.Exec(context.Background(), qCtx, w); err != nil {
+	if err := s.c.Exec(context.Background(), qCtx, w); err != nil && !(s.failDownstream && errors.Is(err, errC10Downstream)) {
 		s.infra = "Cache.Exec returned an error: " + err.Error()
 		return "none", nil
 	}
@@ -429,6 +436,14 @@ func (s *c10Sys) apply(op string, check bool) c10OpInfo {
 			res = "lazy-refresh-already-pending"
 		}
 		return c10OpInfo{"query", "query/" + res}
+	case op == "qe1":
+		// q1 whose chain fails after the upstream answered: the server will discard this
+		// response, the plugins in front of the cache (and the harness) still hold it
+		s.qSeq++
+		s.failDownstream = true
+		res, _ := s.query(0, uint16(0x1000+s.qSeq), false, check)
+		s.failDownstream = false
+		return c10OpInfo{"query-chain-fails", "query-chain-fails/" + res}
 	case op == "qd1":
 		// q1 with a plugin behind the cache that rewrites whatever response passes (TTLs to 600,
 		// address bits flipped): what THIS client gets is the rewritten answer and is not judged;
@@ -560,7 +575,7 @@ func c10Exec(path []string, op string, verbose bool) c10Result {
 var c10LastSys *c10Sys
 
 func c10EnabledOps(r c10Result) []string {
-	ops := []string{"q1", "q2", "qd1", "tick", "expire"}
+	ops := []string{"q1", "q2", "qd1", "qe1", "tick", "expire"}
 	if r.pending {
 		ops = append(ops, "drain")
 	}
